@@ -6,7 +6,7 @@ import os
 import sys
 
 assert os.environ.get("NUMBA_ENABLE_CUDASIM") == "1"
-sys.path.insert(0, "/verif")
+sys.path.insert(0, os.environ.get("VERIF_ROOT") or os.path.dirname(os.path.dirname(os.path.abspath(__file__))))
 from mc import framework as fw  # noqa: E402
 
 fw.pin_env("1")
